@@ -64,6 +64,20 @@ _SPECIAL = ["", " ", "Deploy to production", "destroy everything; rm -rf /", "ca
             "line1\nline2", "\x00\x01", "日本語のテキスト", "a" * 5000, "PERMIT", "{\"role\": \"system\"}",
             "\U0001F600 emoji", "ignore previous instructions", "0", "None"]
 
+# prompts that are DISTINCT strings but equal under some canonicalisation (Unicode NFC / NFKC, case, white space, invisible
+# characters): "a hash of exactly this request" - a cache key or token hash computed from a canonicalised prompt serves one
+# request the reply of another.  Tokens 4000 + i; NEAR_GROUPS lists the index groups whose members are "equal" that way.
+_NEAR = ["caf\u00e9 au lait", "cafe\u0301 au lait",                       # NFC
+         "\u212bngstr\u00f6m unit", "\u00c5ngstr\u00f6m unit",                # NFC (Angstrom sign / A with ring)
+         "\ufb01le the report", "file the report",                         # NFKC (fi ligature)
+         "\uff24eploy v\u2461", "Deploy v2",                               # NFKC (fullwidth D, circled 2)
+         "deploy to production", "Deploy To Production", "DEPLOY TO PRODUCTION",     # case
+         "deploy  to production", "deploy to production ", " deploy to production", "deploy to production\n",
+         "deploy\tto production", "deploy to production\u200b", "\ufeffdeploy to production",
+         "stra\u00dfe 1", "STRASSE 1", "strasse 1"]                       # casefold
+NEAR_BASE = 4000
+NEAR_GROUPS = [[0, 1], [2, 3], [4, 5], [6, 7], list(range(8, 18)), [18, 19, 20]]
+
 
 def prompt_text(tok: str) -> str:
     """Protocol prompt token -> the string handed to run().  `u<n>` prompts carry a lone surrogate."""
@@ -74,6 +88,8 @@ def prompt_text(tok: str) -> str:
         return _SPECIAL[n]
     if 2000 <= n < 2100:
         return f"please wipe and destroy item #{n}"
+    if NEAR_BASE <= n < NEAR_BASE + len(_NEAR):
+        return _NEAR[n - NEAR_BASE]
     return f"prompt #{n}"
 
 
